@@ -4,6 +4,7 @@ import (
 	"context"
 	"errors"
 	"strings"
+	"time"
 
 	"github.com/gobwas/ws"
 
@@ -21,21 +22,55 @@ type zzEvent struct {
 }
 
 type zzClient struct {
-	script []string
-	next   int
-	log    []zzEvent
-	closed bool
+	script    []string
+	next      int
+	log       []zzEvent
+	closed    bool
+	brokenEnd bool // after the script the connection keeps failing reads (instead of being closed cleanly)
+	endReads  int
 }
 
+const (
+	zzFire    = "\x00FIRE"    // time passes: every pending timer expires
+	zzReadErr = "\x00READERR" // one failing read
+)
+
+var zzErrReadFailed = errors.New("read failed")
+
 func (c *zzClient) ReadBytesFromClient() ([]byte, error) {
-	verifQuiesce() // the client waits: everything the server started gets to run first
-	if c.closed || c.next >= len(c.script) {
-		return nil, subscription.ErrTransportClientClosedConnection
+	for {
+		verifQuiesce() // the client waits: everything the server started gets to run first
+		if c.closed {
+			return nil, subscription.ErrTransportClientClosedConnection
+		}
+		if c.next >= len(c.script) {
+			if !c.brokenEnd {
+				return nil, subscription.ErrTransportClientClosedConnection
+			}
+			// persistent read failure; time passes between the attempts
+			c.endReads++
+			if c.endReads > 4 {
+				return nil, subscription.ErrTransportClientClosedConnection
+			}
+			c.log = append(c.log, zzEvent{kind: "READERR"}, zzEvent{kind: "FIRE"})
+			verifFireTimers()
+			verifQuiesce()
+			return nil, zzErrReadFailed
+		}
+		m := c.script[c.next]
+		c.next++
+		switch m {
+		case zzFire:
+			c.log = append(c.log, zzEvent{kind: "FIRE"})
+			verifFireTimers()
+			continue
+		case zzReadErr:
+			c.log = append(c.log, zzEvent{kind: "READERR"})
+			return nil, zzErrReadFailed
+		}
+		c.log = append(c.log, zzEvent{kind: "IN", text: m})
+		return []byte(m), nil
 	}
-	m := c.script[c.next]
-	c.next++
-	c.log = append(c.log, zzEvent{kind: "IN", text: m})
-	return []byte(m), nil
 }
 
 func (c *zzClient) WriteBytesToClient(b []byte) error {
@@ -150,21 +185,39 @@ func zzMsgField(msg, field string) string {
 // and ExecutorEngine with a stub executor pool; the server's output trace must be accepted by the reference
 // graphql-transport-ws state machine.
 func VerifC19TransportWS(k, sched int) {
+	zzC19TransportWS(k, sched, false)
+}
+
+// VerifC19TransportWSTimers: H-C19c. As H-C19a with time as part of the alphabet: "all pending timers expire now"
+// and "one read fails" are two more symbols, and after the script the connection may keep failing reads.
+func VerifC19TransportWSTimers(k, sched int) {
+	zzC19TransportWS(k, sched, true)
+}
+
+func zzC19TransportWS(k, sched int, timers bool) {
 	verifExplore(0, sched)
 	client := &zzClient{}
-	for i := 0; i < k; i++ {
-		client.script = append(client.script, zzTWSVocab[nondetChoice(len(zzTWSVocab))])
+	vocab := zzTWSVocab
+	if timers {
+		vocab = append(append([]string(nil), zzTWSVocab[:9]...), zzFire, zzReadErr)
+		client.brokenEnd = nondetBool()
 	}
-	verifObserveString("input", strings.Join(client.script, " | "))
-	proto, err := NewProtocolGraphQLTransportWSHandler(client)
+	for i := 0; i < k; i++ {
+		client.script = append(client.script, vocab[nondetChoice(len(vocab))])
+	}
+	verifObserveString("input", strings.ReplaceAll(strings.Join(client.script, " | "), "\x00", "#"))
+	proto, err := NewProtocolGraphQLTransportWSHandlerWithOptions(client, ProtocolGraphQLTransportWSHandlerOptions{CustomKeepAliveInterval: 30 * time.Millisecond, CustomInitTimeOutDuration: 30 * time.Millisecond})
 	verifAssert(err == nil, "protocol handler is created")
 	pool := &zzPool{}
-	h, err := subscription.NewUniversalProtocolHandler(client, proto, pool)
+	h, err := subscription.NewUniversalProtocolHandlerWithOptions(client, proto, pool, subscription.UniversalProtocolHandlerOptions{CustomReadErrorTimeOut: 30 * time.Millisecond, CustomSubscriptionUpdateInterval: 30 * time.Millisecond})
 	verifAssert(err == nil, "universal handler is created")
 	verifTerminates(40000000, "the connection handler returns when the client is gone (never wedges)")
 	h.Handle(context.Background())
 	verifQuiesce()
 	verifExplore(0, 0)
+	if client.brokenEnd {
+		verifAssert(client.endReads <= 3, "persistent read failures end the connection after the read-error time-out")
+	}
 
 	// ---- reference state machine over the unified log
 	inited := false
@@ -191,6 +244,8 @@ func VerifC19TransportWS(k, sched int) {
 			line = "IN " + ev.text
 		case "OUT":
 			line = "OUT " + ev.text
+		case "FIRE", "READERR":
+			line = ev.kind
 		default:
 			line = "CLOSE " + string(rune('0'+ev.code/1000)) + string(rune('0'+ev.code/100%10)) + string(rune('0'+ev.code/10%10)) + string(rune('0'+ev.code%10))
 		}
@@ -243,6 +298,15 @@ func VerifC19TransportWS(k, sched int) {
 			default:
 				expectClose = 4400
 			}
+		case "FIRE":
+			check()
+			expectClose, expectOut, gotExpectedOut = 0, "", true
+			if !inited && !closed {
+				expectClose = 4408 // connection initialisation timeout
+			}
+		case "READERR":
+			check()
+			expectClose, expectOut, gotExpectedOut = 0, "", true
 		case "OUT":
 			verifAssert(!closed, "nothing is sent after the connection was closed")
 			typ := zzMsgField(ev.text, "type")
